@@ -12,7 +12,8 @@ RULE = ('Generated PortfolioConstructionModel calls on a real broker with stub q
         'universe (entries on / one minute after the rebalance instant), alpha weight dict a subset / superset / '
         'disjoint set relative to holdings and universe (or no alpha model at all), both order sizers (incl. default '
         'construction), zero/percentage fees, cash 300..1e6 so that one-share differences occur, 1-4 successive '
-        'rebalances with quote moves and re-weighting in between. Oracle: S = universe(dt) u held u keys(alpha); '
+        'rebalances with quote moves and re-weighting in between, one construction model / sizer / optimiser instance '
+        'serving all of them (as in a session), optionally a second portfolio on the account. Oracle: S = universe(dt) u held u keys(alpha); '
         'expected weights = alpha weight or 0.0 on S; target from a second call of the real sizer in the same '
         'broker state; orders must be exactly {a: target-held} for the non-zero differences, no zero quantity, no '
         'duplicate asset, ascending asset order, created_dt == dt; after submitting and one open-hours update the '
